@@ -513,6 +513,9 @@ func c09Ladder(c *mc.Check) {
 		}
 	}
 	vals = append(vals, "999", "1000", "1024", "1e3", "1e24", "1.1e24", "1e30", "NaN", "x", "-1", "0")
+	// other spellings of plain numbers: zero-padded, signed, fractional, huge integers whose float values differ,
+	// a number between two others that is not a digit string (transitivity across spellings)
+	vals = append(vals, "007", "08", "010", "9", "10", "8.5", "+7.5", "-0.5", "18446744073709551616", "9007199254740993", "1e-3", ".25", "3.")
 	check := func(order []int) string {
 		var pp ProjectionParser
 		p, err := pp.Parse("k@num", nil)
